@@ -1,0 +1,225 @@
+//go:build verif
+// +build verif
+
+package core
+
+// Verification hooks (build tag "verif"): single-stepping of the poller loop, an on-demand
+// ticker, and a read-only projection of the loop's heap. Everything here is meant to be
+// called only while the loop is parked at the gate installed with VerifSetGate, apart from
+// the setters, which are called before Run.
+
+import (
+	"time"
+
+	"github.com/petar/GoLLRB/llrb"
+
+	"rcproxy/core/internal/netpoll"
+)
+
+var (
+	verifHold    bool
+	verifTickReq bool
+
+	// VerifRefreshIdleFn is called by the topology refresher each time it goes back to
+	// waiting for the next probe reply.
+	VerifRefreshIdleFn func()
+
+	verifMsgObj  = map[*Msg]int{}
+	verifPastCnt int64
+)
+
+func VerifSetGate(f func())                  { netpoll.VerifGateFn = f }
+func VerifSetSeen(f func(fd int, ev uint32)) { netpoll.VerifSeenFn = f }
+
+// VerifHoldTicker(true) makes ticker() a no-op except for ticks requested with VerifRequestTick.
+func VerifHoldTicker(hold bool) { verifHold = hold }
+func VerifRequestTick()         { verifTickReq = true }
+
+func verifHoldTicker(el *eventloop) bool {
+	if !verifHold {
+		return false
+	}
+	if verifTickReq {
+		verifTickReq = false
+		el.nextTicker = time.Time{}
+		return false
+	}
+	return true
+}
+
+func verifRefreshIdle() {
+	if f := VerifRefreshIdleFn; f != nil {
+		f()
+	}
+}
+
+type VerifMsgSnap struct {
+	Obj      int    `json:"obj"`
+	Id       uint64 `json:"id"`
+	Type     int    `json:"type"`
+	Done     bool   `json:"done"`
+	FragDone int    `json:"fragDone"`
+	NFrags   int    `json:"nfrags"`
+	Err      string `json:"err"`
+	RspLen   int    `json:"rspLen"`
+}
+
+type VerifFragSnap struct {
+	Id      uint64 `json:"id"`
+	MsgObj  int    `json:"msgObj"`
+	MsgId   uint64 `json:"msgId"`
+	Done    bool   `json:"done"`
+	Key     string `json:"key"`
+	OwnerFd int    `json:"ownerFd"`
+}
+
+type VerifConnSnap struct {
+	Fd         int             `json:"fd"`
+	Kind       string          `json:"kind"`
+	Local      string          `json:"local"`
+	Remote     string          `json:"remote"`
+	Opened     bool            `json:"opened"`
+	IsSlave    bool            `json:"isSlave"`
+	InitStatus int             `json:"initStatus"`
+	InitStep   int             `json:"initStep"`
+	InMsgs     []VerifMsgSnap  `json:"inMsgs"`
+	OutFrags   []VerifFragSnap `json:"outFrags"`
+	InFrags    []VerifFragSnap `json:"inFrags"`
+	Outbound   int             `json:"outbound"`
+	Inbound    int             `json:"inbound"`
+}
+
+type VerifPoolSnap struct {
+	Addr    string `json:"addr"`
+	IsSlave bool   `json:"isSlave"`
+	Closed  bool   `json:"closed"`
+	Banned  bool   `json:"banned"`
+	Active  int    `json:"active"`
+}
+
+type VerifSlotRange struct {
+	Start  int      `json:"start"`
+	End    int      `json:"end"`
+	Master string   `json:"master"`
+	Slaves []string `json:"slaves"`
+}
+
+type VerifSnap struct {
+	Conns         []VerifConnSnap  `json:"conns"`
+	Timeout       []uint64         `json:"timeout"`
+	TasksEmpty    bool             `json:"tasksEmpty"`
+	Pools         []VerifPoolSnap  `json:"pools"`
+	Slots         []VerifSlotRange `json:"slots"`
+	ServerChanged bool             `json:"serverChanged"`
+}
+
+func verifMsgOrd(m *Msg) int {
+	if m == nil {
+		return 0
+	}
+	if n, ok := verifMsgObj[m]; ok {
+		return n
+	}
+	n := len(verifMsgObj) + 1
+	verifMsgObj[m] = n
+	return n
+}
+
+func verifFrag(f *Frag) VerifFragSnap {
+	return VerifFragSnap{Id: f.Id, MsgObj: verifMsgOrd(f.Peer), MsgId: f.MsgId(), Done: f.Done, Key: f.Key, OwnerFd: f.OwnerFd()}
+}
+
+// VerifLoopReady reports whether the engine and its event loop exist.
+func VerifLoopReady() bool {
+	return EngineGlobal != nil && EngineGlobal.eng != nil && EngineGlobal.eng.el != nil
+}
+
+// VerifPollFds returns the epoll fd and the wake-up eventfd of the loop's poller.
+func VerifPollFds() (int, int) { return EngineGlobal.eng.el.poller.VerifFds() }
+
+// VerifSnapshot projects the heap of the event loop. Full=false skips pools and slots.
+func VerifSnapshot(full bool) *VerifSnap {
+	el := EngineGlobal.eng.el
+	s := &VerifSnap{TasksEmpty: el.poller.VerifTasksEmpty(), ServerChanged: EngineGlobal.ClusterNodes.serverChanged}
+	for fd, c := range el.connections {
+		cs := VerifConnSnap{Fd: fd, Kind: string(rune(c.connType)), Local: c.LocalAddr(), Remote: c.RemoteAddr(),
+			Opened: c.opened, IsSlave: c.isSlave, InitStatus: int(c.initStatus), InitStep: int(c.initStep)}
+		if c.outboundBuffer != nil {
+			cs.Outbound = c.outboundBuffer.Buffered()
+		}
+		cs.Inbound = c.inboundBuffer.Buffered()
+		if c.inMsgQueue != nil {
+			for m := c.inMsgQueue.head; m != nil; m = m.prev {
+				cs.InMsgs = append(cs.InMsgs, VerifMsgSnap{Obj: verifMsgOrd(m), Id: m.Id, Type: int(m.Type), Done: m.Done,
+					FragDone: m.FragDoneNumber, NFrags: len(m.Body), Err: string(m.Error), RspLen: len(m.RspBody)})
+			}
+		}
+		if c.outFragQueue != nil {
+			for f := c.outFragQueue.head; f != nil; f = f.prev {
+				cs.OutFrags = append(cs.OutFrags, verifFrag(f))
+			}
+		}
+		if c.inFragQueue != nil {
+			for f := c.inFragQueue.head; f != nil; f = f.prev {
+				cs.InFrags = append(cs.InFrags, verifFrag(f))
+			}
+		}
+		s.Conns = append(s.Conns, cs)
+	}
+	if min := timeoutTree.Min(); min != nil {
+		timeoutTree.AscendGreaterOrEqual(min, func(i llrb.Item) bool {
+			s.Timeout = append(s.Timeout, i.(*Frag).Id)
+			return true
+		})
+	}
+	if !full {
+		return s
+	}
+	for addr, p := range EngineGlobal.ProxyPool {
+		s.Pools = append(s.Pools, VerifPoolSnap{Addr: addr, IsSlave: p.isSlave, Closed: p.closed, Banned: p.AutoBanFlag, Active: p.active.count})
+	}
+	var cur *replicaset
+	start := 0
+	flush := func(end int) {
+		if cur == nil {
+			return
+		}
+		r := VerifSlotRange{Start: start, End: end, Master: cur.Master.Addr}
+		for _, sl := range cur.Slaves {
+			r.Slaves = append(r.Slaves, sl.Addr)
+		}
+		s.Slots = append(s.Slots, r)
+	}
+	for i := 0; i < len(EngineGlobal.Slots2Node); i++ {
+		rs := EngineGlobal.Slots2Node[i]
+		if rs != cur {
+			flush(i - 1)
+			cur, start = rs, i
+		}
+	}
+	flush(len(EngineGlobal.Slots2Node) - 1)
+	return s
+}
+
+// VerifExpire moves the deadline of the in-flight fragment with the given id into the past,
+// so that the next timeout scan finds it expired. It reports whether the fragment was found.
+func VerifExpire(fragID uint64) bool {
+	var hit *Frag
+	if min := timeoutTree.Min(); min != nil {
+		timeoutTree.AscendGreaterOrEqual(min, func(i llrb.Item) bool {
+			if f := i.(*Frag); f.Id == fragID {
+				hit = f
+				return false
+			}
+			return true
+		})
+	}
+	if hit == nil {
+		return false
+	}
+	timeoutTree.Delete(hit)
+	verifPastCnt++
+	hit.Timeout = time.Unix(1, verifPastCnt)
+	timeoutTree.ReplaceOrInsert(hit)
+	return true
+}
